@@ -329,6 +329,10 @@ type TLSConfig struct {
 // TCPBackends ...
 type TCPBackends struct {
 	items, itemsAdd, itemsDel map[int]*TCPBackend
+	// hash of the content of the files each port uses:
+	// the filenames do not change when the secrets do
+	hashes        map[int]string
+	hashesChanged bool
 }
 
 // TCPBackend ...
